@@ -111,15 +111,28 @@ fn event(r: &mut Rng, pool: &mut Vec<W>) -> (&'static str, Vec<u64>, Vec<u64>) {
         }
         6..=10 => {
             let i = r.below(N_BIN);
-            let a = pick(r, pool);
-            let b = if r.coin() { tf_related(r, a, -300, 300, 3 + (i % 7)) } else { pick(r, pool) };
+            let a = if r.chance(1, 8) { if r.coin() { tf_in(r, -1022, -960) } else { tf_in(r, 960, 1023) } } else { pick(r, pool) };
+            let b = if r.chance(1, 8) { tf_in(r, -60, 60) } else if r.coin() { tf_related(r, a, -300, 300, 3 + (i % 7)) } else { pick(r, pool) };
             let (a, b) = if (15..=18).contains(&i) { (tf_in(r, -20, 20), tf_in(r, -6, 6)) } else { (a, b) };
             (BIN_NAMES[i as usize], vec![hx(a.0), hx(a.1), hx(b.0), hx(b.1)], guard(|| vec![w(bin(i, t(a), t(b)))]))
         }
         11 | 12 => {
             let i = r.below(N_MIX);
-            let a = pick(r, pool);
-            let f = f64_related(r, a, -300, 300);
+            // a quarter of the mixed events sit at the edges of the exponent range with power-of-two
+            // or simple scalars: results that land next to the subnormal boundary / overflow
+            let (a, f) = if r.chance(1, 4) {
+                let a = if r.coin() { tf_in(r, -1022, -990) } else { tf_in(r, 990, 1023) };
+                let f = match r.below(3) {
+                    0 => pow2(r.range(-40, 40)),
+                    1 => -pow2(r.range(-40, 40)),
+                    _ => f64_in(r, -40, 40),
+                };
+                (a, f)
+            } else {
+                let a = pick(r, pool);
+                let f = f64_related(r, a, -300, 300);
+                (a, f)
+            };
             (MIX_NAMES[i as usize], vec![hx(a.0), hx(a.1), hx(f)], guard(|| vec![w(mixop(i, t(a), f))]))
         }
         13 => {
